@@ -135,6 +135,7 @@ def run(argv):
     """run `mchap <prog> ...` in-process; returns stdout text"""
     from . import env
 
+    env.dirty_heap()
     with env.app_warnings():
         return synth.run_prog(modules()[argv[1]], argv)
 
